@@ -18,7 +18,9 @@ None == [none |-> TRUE]
 TInit == l = 1 /\ ref = None /\ done = FALSE
 Is(e) == l <= Len(Rec) /\ Rec[l].ev = e
 
-Strip(d) == [code |-> d.code, line |-> d.line, col |-> d.col, start |-> d.start, end |-> d.end, file |-> d.file]
+\* dh: hash of the complete diagnostic (all names, message parameters and secondary locations)
+Strip(d) == [code |-> d.code, line |-> d.line, col |-> d.col, start |-> d.start, end |-> d.end, file |-> d.file,
+             dh |-> IF "dh" \in DOMAIN d THEN d.dh ELSE ""]
 Obs(r) == [end |-> r.end, diags |-> [x \in 1..Len(r.diags) |-> Strip(r.diags[x])],
            lints |-> [x \in 1..Len(r.lints) |-> Strip(r.lints[x])], irh |-> r.irh]
 
